@@ -693,7 +693,36 @@ func ruleS66(c *Ctx) {
 		c.anchorMissing("S66", "pkg/ng_operand.(*OperandPegImpl).Require66h")
 		return
 	}
-	// every assignment `inherentSize = k` sits in a clause; collect the type constants / predicates of that clause
+	// the size variable, whatever it is called: the local that is assigned operand widths (8/16/32/64)
+	// in the most case clauses
+	widthAssigns := map[types.Object]int{}
+	isWidth := func(e ast.Expr) bool {
+		v, ok := constInt(p.TypesInfo, e)
+		return ok && (v == 8 || v == 16 || v == 32 || v == 64)
+	}
+	ast.Inspect(fd.Body, func(x ast.Node) bool {
+		cc, ok := x.(*ast.CaseClause)
+		if !ok {
+			return true
+		}
+		for _, st := range cc.Body {
+			if as, ok := st.(*ast.AssignStmt); ok && len(as.Lhs) == 1 && len(as.Rhs) == 1 && isWidth(as.Rhs[0]) {
+				if id, ok := as.Lhs[0].(*ast.Ident); ok {
+					if obj := p.TypesInfo.Uses[id]; obj != nil {
+						widthAssigns[obj]++
+					}
+				}
+			}
+		}
+		return true
+	})
+	var sizeVar types.Object
+	for obj, k := range widthAssigns {
+		if sizeVar == nil || k > widthAssigns[sizeVar] || (k == widthAssigns[sizeVar] && obj.Pos() < sizeVar.Pos()) {
+			sizeVar = obj
+		}
+	}
+	// every assignment `size = k` sits in a clause; collect the type constants / predicates of that clause
 	n := 0
 	ast.Inspect(fd.Body, func(x ast.Node) bool {
 		cc, ok := x.(*ast.CaseClause)
@@ -703,7 +732,7 @@ func ruleS66(c *Ctx) {
 		assigns := false
 		for _, st := range cc.Body {
 			if as, ok := st.(*ast.AssignStmt); ok && len(as.Lhs) == 1 {
-				if id, ok := as.Lhs[0].(*ast.Ident); ok && id.Name == "inherentSize" {
+				if id, ok := as.Lhs[0].(*ast.Ident); ok && sizeVar != nil && p.TypesInfo.Uses[id] == sizeVar {
 					assigns = true
 				}
 			}
@@ -738,7 +767,7 @@ func ruleS66(c *Ctx) {
 		c.check(len(bad) == 0, "S66", key, c.L.Pos(cc.Pos()), fmt.Sprintf("an operand kind without an operand size (%s) sets the inherent size: its instructions get a 66h prefix in the other mode", strings.Join(bad, ", ")))
 		return true
 	})
-	c.check(n >= 3, "S66", "Require66h|size clauses found", c.L.Pos(fd.Pos()), fmt.Sprintf("%d clauses assign inherentSize", n))
+	c.check(n >= 3, "S66", "Require66h|size clauses found", c.L.Pos(fd.Pos()), fmt.Sprintf("%d clauses assign the inherent operand size", n))
 }
 
 func firstExpr(l []ast.Expr) ast.Expr {
